@@ -207,7 +207,7 @@ func loadVC(patterns []string) (*VC, error) {
 	env = append(env, "GOFLAGS=-mod=mod", "GOPROXY=off")
 	cfg := &packages.Config{
 		Mode:       packages.NeedName | packages.NeedSyntax | packages.NeedTypes | packages.NeedTypesInfo | packages.NeedImports | packages.NeedFiles | packages.NeedCompiledGoFiles,
-		Dir:        "/repo",
+		Dir:        repoRoot,
 		BuildFlags: []string{"-tags=verif"},
 		Fset:       vc.fset,
 		Env:        env,
